@@ -14,10 +14,12 @@ LEVEL = "exploration"
 RULE = (
     "Generated job trees with nested update_context overrides (dict overrides with nested mappings, "
     "non-dict values replacing dicts and vice versa, expression-valued overrides evaluated as task "
-    "options, several levels deep), a configured root context merged with the context passed to "
+    "options, calls through partial tasks with update_context chained before and after the partial "
+    "application, several levels deep), a configured root context merged with the context passed to "
     "run(), context read by get_context(path, default) in bodies, in child jobs and in default "
     "arguments, over dotted paths including missing segments and non-mapping intermediates; plus the "
-    "generic program grammar with contexts enabled. Oracle: an independent deep-merge + path lookup "
+    "generic program grammar with contexts enabled; in a third of the cases 1-3 further run(context=..) "
+    "calls follow on the same Scheduler object. Oracle: an independent deep-merge + path lookup "
     "(later keys win, nested mappings merged, default when a segment is missing or not a mapping): "
     "the value returned by Scheduler.run must equal the reference interpreter's. Non-trivial = >=2 "
     "nested overrides with a dict/non-dict clash and a path of >=2 segments."
@@ -55,6 +57,12 @@ def nested_programs(draw):
         if kind == "default" and i == 0:
             o["t"] = "cnode"
             cur = ["list", [["var", "c"], ["var", "c2"], cur]]
+        if "ctxe" not in o and draw(st.integers(0, 3)) == 0:
+            # the call goes through a partial task, with update_context chained before and/or after
+            # the partial application (t.update_context(a).partial(..).update_context(b)...)
+            o["pctx"] = draw(st.lists(ctxdict, min_size=1, max_size=2))
+            cur = ["ptask", cur, {}, o]
+            continue
         cur = ["task", cur, {}, o]
     if draw(st.booleans()):
         # a sibling subtree with other overrides: contexts must not leak sideways
@@ -68,8 +76,12 @@ def cases(draw):
         prog = draw(P.programs(max_depth=3, modes=("node", "dnode"), errors=False, ctxs=True))
     else:
         prog = draw(nested_programs())
-    return {"prog": prog, "root": draw(st.one_of(st.just({}), ctxdict)), "runctx": draw(st.one_of(st.just({}), ctxdict)),
+    case = {"prog": prog, "root": draw(st.one_of(st.just({}), ctxdict)), "runctx": draw(st.one_of(st.just({}), ctxdict)),
             "decisions": draw(st.lists(st.integers(0, 3), max_size=20)), "fine": draw(st.booleans())}
+    if draw(st.integers(0, 2)) == 0:
+        # further run() calls on the SAME Scheduler object, each with its own context= argument
+        case["more_runs"] = draw(st.lists(st.one_of(st.just({}), ctxdict), min_size=1, max_size=3))
+    return case
 
 
 def count_overrides(ast) -> tuple:
@@ -87,6 +99,30 @@ def oracle(ctx: Ctx, case):
     if not P.outcome_in(r.kind, r.payload, exp):
         raise Violation("context-value", f"got {r.kind} {r.payload!r}; the context model gives {exp.oks[:1]!r} "
                         f"{[P.err_key(e) for e in exp.errs[:2]]} (root {case['root']} + run {case['runctx']})", case)
+    if case.get("more_runs"):
+        import vf_tasks
+
+        # one Scheduler, several run(context=...) calls: the root context of each run is the
+        # configured context merged with THAT run's context only
+        sched = C.new_scheduler(context=case["root"] or None)
+        try:
+            for i, rc in enumerate([case["runctx"]] + list(case["more_runs"])):
+                exp_i = P.reference(case["prog"], context=P.merge_ctx(case["root"], rc))
+                ctl = C.Ctl(case["decisions"], fine=case["fine"], step_budget=6000)
+                ctl.attach(sched)
+                try:
+                    kind, payload = "ok", sched.run(vf_tasks.node(P.fresh(case["prog"]), {}), context=rc)
+                except (C.Quiescent, C.StepBudget) as q:
+                    raise Violation("stuck", f"run {i} on a reused scheduler did not terminate: {q}", case)
+                except Exception as e:  # noqa: BLE001 - the program's own failure
+                    kind, payload = "err", e
+                if not P.outcome_in(kind, payload, exp_i):
+                    raise Violation("context-value:reused-scheduler", f"run {i} on one Scheduler object with context={rc}: got "
+                                    f"{kind} {payload!r}; the context model gives {exp_i.oks[:1]!r} "
+                                    f"{[P.err_key(e) for e in exp_i.errs[:2]]} (configured {case['root']}; earlier runs used "
+                                    f"{([case['runctx']] + list(case['more_runs']))[:i]})", case)
+        finally:
+            dbx.discard_backend(sched.backend)
 
 
 def run_case(ctx: Ctx, case) -> None:
@@ -95,7 +131,8 @@ def run_case(ctx: Ctx, case) -> None:
     finally:
         n, deep = count_overrides(case["prog"])
         ctx.case(case, labels=[f"overrides:{min(n, 4)}", "deep-path" if deep else "flat-path",
-                               "root" if case["root"] else "no-root", "runctx" if case["runctx"] else "no-runctx"],
+                               "root" if case["root"] else "no-root", "runctx" if case["runctx"] else "no-runctx",
+                               "reused-scheduler" if case.get("more_runs") else "one-run"],
                  nontrivial=n >= 2 and deep)
 
 
